@@ -16,6 +16,9 @@ pub struct TimingProbe {
     last_tx: BTreeMap<Item, u64>,
     /// time (sender clock, ms) at which an ack for a packet carrying the item was processed
     acked_at: BTreeMap<Item, u64>,
+    /// items for which an acknowledgement of a carrying packet of ANY age was processed: the peer has them, so the
+    /// obligation to retransmit has lapsed (whether such a late acknowledgement is honoured is left open)
+    acked_late: std::collections::BTreeSet<Item>,
     retransmissions: u64,
 }
 
@@ -24,6 +27,7 @@ impl TimingProbe {
         TimingProbe {
             last_tx: BTreeMap::new(),
             acked_at: BTreeMap::new(),
+            acked_late: Default::default(),
             retransmissions: 0,
         }
     }
@@ -86,7 +90,7 @@ impl Probe for TimingProbe {
         // (a) by the harness's own bookkeeping: an item that was transmitted and for which no acknowledgement
         // of a carrying packet was processed is unacknowledged, whatever the library's tables say
         for (it, prev) in self.last_tx.iter() {
-            if it.0 != dir || self.acked_at.contains_key(it) || *prev == now {
+            if it.0 != dir || self.acked_at.contains_key(it) || self.acked_late.contains(it) || *prev == now {
                 continue;
             }
             let r = l.cfg.chan(dir, it.1).resend_ms;
@@ -158,9 +162,13 @@ impl Probe for TimingProbe {
         if let PktInfo::Ack { ranges } = &l.emitted[pkt].info {
             let now = l.now_ms[e];
             for q in l.emitted.iter().filter(|q| q.dir == e) {
-                if ranges.iter().any(|(s, en)| q.seq >= *s && q.seq < *en) && now - q.at_ms < 3000 {
+                if ranges.iter().any(|(s, en)| q.seq >= *s && q.seq < *en) {
                     for it in items_of(e, &q.info) {
-                        self.acked_at.entry(it).or_insert(now);
+                        if now - q.at_ms < 3000 {
+                            self.acked_at.entry(it).or_insert(now);
+                        } else {
+                            self.acked_late.insert(it);
+                        }
                     }
                 }
             }
